@@ -301,6 +301,8 @@ class SInt:
                 o >>= 1
                 k += 1
             return acc
+        if isinstance(o, float):
+            return SDyadic.of_int(self, o)
         raise OutOfReach("symbolic product")
 
     __rmul__ = __mul__
@@ -494,10 +496,12 @@ class SNeg:
         raise ModelGap("'SNeg' proxy has no model of attribute '%s'" % k)
 
 
-    __slots__ = ("mag",)
+    __slots__ = ("mag", "twos")
 
-    def __init__(self, mag):
+    def __init__(self, mag, twos=None):
         self.mag = SInt.lift(mag) if not isinstance(mag, SInt) else mag
+        self.twos = twos  # the two's complement bits (LSB first) this value was decoded from, if any: encoding it again in
+        # the same width gives those bits back without going through two carry chains
 
     def __abs__(self):
         return self.mag.n()
@@ -511,6 +515,8 @@ class SNeg:
                 return 0
             r = self.mag * abs(int(o))
             return r if o < 0 else (SNeg(r) if isinstance(r, (SInt, SLin)) else -r)
+        if isinstance(o, float):
+            return SDyadic.of_int(self, o)
         raise OutOfReach("product with a negative symbolic int")
 
     __rmul__ = __mul__
@@ -539,25 +545,36 @@ class SNeg:
         r = self.__eq__(o)
         return bnot(r) if isinstance(r, SBit) else (not r if r is not NotImplemented else r)
 
-    def __ge__(self, o):
-        if o == 0:
-            return self._zero()
-        raise OutOfReach("comparison of a negative symbolic int")
-
-    def __gt__(self, o):
-        if o == 0:
-            return False
-        raise OutOfReach("comparison of a negative symbolic int")
+    # -(m) compared with a literal integer c, reduced to comparisons of the magnitude:  -m < c  <=>  m > -c
+    def _cmp_int(self, o, op):
+        if isinstance(o, (SInt, SLin, SBit)):  # a non-negative symbolic value
+            if op in ("lt", "le"):
+                return (bnot(band(self._zero(), SInt.lift(o)._is_zero())) if op == "lt" else 1)
+            return (band(self._zero(), SInt.lift(o)._is_zero()) if op == "ge" else 0)
+        if isinstance(o, SNeg):
+            return {"lt": self.mag > o.mag, "le": self.mag >= o.mag, "gt": self.mag < o.mag, "ge": self.mag <= o.mag}[op]
+        if not isinstance(o, (int, _np.integer)) or isinstance(o, bool):
+            raise OutOfReach("comparison of a negative symbolic int with %s" % type(o).__name__)
+        c = -int(o)
+        if op == "lt":
+            return True if c < 0 else self.mag > c
+        if op == "le":
+            return True if c <= 0 else self.mag >= c
+        if op == "gt":
+            return False if c <= 0 else self.mag < c
+        return False if c < 0 else self.mag <= c
 
     def __lt__(self, o):
-        if o == 0:
-            return bnot(self._zero())
-        raise OutOfReach("comparison of a negative symbolic int")
+        return self._cmp_int(o, "lt")
 
     def __le__(self, o):
-        if o == 0:
-            return True
-        raise OutOfReach("comparison of a negative symbolic int")
+        return self._cmp_int(o, "le")
+
+    def __gt__(self, o):
+        return self._cmp_int(o, "gt")
+
+    def __ge__(self, o):
+        return self._cmp_int(o, "ge")
 
     def __hash__(self):
         raise OutOfReach("hash of symbolic int")
@@ -772,6 +789,130 @@ class SLin:
 
     def __repr__(self):
         return "SLin<%d terms>" % len(self.t)
+
+
+class SDyadic:
+    """an exactly represented float:  (-1)^neg * mag * num / 2^exp  with a symbolic natural `mag` and literal num, exp.
+
+    The repository scales raw integer fields by literal powers-of-two fractions (GPS Info: 360 / 2^25, 180 / 2^24) and back.
+    IEEE-754 binary64 multiplication / division is correctly rounded, so it is EXACT whenever both operands and the
+    mathematical result are representable, i.e. dyadic rationals whose odd part is below 2^53; every operation here checks
+    that bound on the widths and refuses (OutOfReach) anything else - a float that is not of this form is never symbolic."""
+
+    __slots__ = ("neg", "mag", "num", "exp", "src")
+
+    def __init__(self, neg, mag, num, exp, src=None):
+        self.neg, self.mag, self.num, self.exp = neg, (mag if isinstance(mag, SInt) else SInt.lift(mag)), int(num), int(exp)
+        self.src = src  # the integer proxy this float was scaled from (same sign, same magnitude): int() of the unscaled value is it
+        if self.num <= 0:
+            raise OutOfReach("dyadic value with a non-positive multiplier")
+        while self.exp > 0 and not self.num & 1:
+            self.num >>= 1
+            self.exp -= 1
+        if self.mag.width() + self.num.bit_length() > 53:
+            raise OutOfReach("float product beyond 53 significant bits: rounding is not modelled")
+
+    def __getattr__(self, k):
+        from .core import ModelGap
+
+        raise ModelGap("'SDyadic' proxy has no model of attribute '%s'" % k)
+
+    @staticmethod
+    def _ratio(f):
+        if isinstance(f, bool) or not isinstance(f, (int, float)):
+            raise OutOfReach("float arithmetic with %s" % type(f).__name__)
+        if f != f or f in (float("inf"), float("-inf")):
+            raise OutOfReach("non-finite float")
+        p, q = (f, 1) if isinstance(f, int) else f.as_integer_ratio()
+        return (p < 0), abs(p), q.bit_length() - 1  # q is a power of two for every finite float
+
+    @staticmethod
+    def of_int(v, f):
+        """v * f for a symbolic integer v (SInt / SNeg / SBit / SLin) and a literal float f"""
+        fneg, p, e = SDyadic._ratio(f)
+        if p == 0:
+            return 0.0
+        vneg = isinstance(v, SNeg)
+        mag = v.mag if vneg else SInt.lift(v)
+        return SDyadic(vneg != fneg, mag, p, e, src=(v if not fneg else None))
+
+    def __mul__(self, f):
+        fneg, p, e = SDyadic._ratio(f)
+        if p == 0:
+            return 0.0
+        return SDyadic(self.neg != fneg, self.mag, self.num * p, self.exp + e, src=(self.src if not fneg else None))
+
+    __rmul__ = __mul__
+
+    def __truediv__(self, f):
+        import math
+
+        fneg, p, e = SDyadic._ratio(f)
+        if p == 0:
+            raise ZeroDivisionError("float division by zero")
+        # (mag num / 2^exp) / (p / 2^e) = mag (num 2^e) / (p 2^exp): exact only if p divides num (after cancelling)
+        g = math.gcd(self.num, p)
+        num, den = self.num // g, p // g
+        if den & (den - 1):
+            raise OutOfReach("float quotient that is not a dyadic rational: rounding is not modelled")
+        return SDyadic(self.neg != fneg, self.mag, num << e if e >= 0 else num, self.exp + (den.bit_length() - 1) - (0 if e >= 0 else e), src=(self.src if not fneg else None))
+
+    def __neg__(self):
+        return SDyadic(not self.neg, self.mag, self.num, self.exp)
+
+    def __abs__(self):
+        return SDyadic(False, self.mag, self.num, self.exp)
+
+    def _scaled(self, exp):
+        """mag * num * 2^(exp - self.exp) as a symbolic natural (exp >= self.exp)"""
+        m = self.mag * self.num
+        return (SInt.lift(m) if not isinstance(m, int) else m) << (exp - self.exp)
+
+    def __eq__(self, o):
+        if isinstance(o, (int, float)) and not isinstance(o, bool):
+            oneg, p, e = SDyadic._ratio(o)
+            if p == 0:
+                return self.mag._is_zero()
+            if p.bit_length() > 53:
+                return False
+            o = SDyadic(oneg, SInt.lift(p), 1, e) if False else (oneg, p, e)
+            E = max(self.exp, e)
+            same = SInt.lift(self._scaled(E)) == (p << (E - e))
+            return band(tobit(same), 1 if self.neg == oneg else self.mag._is_zero())
+        if isinstance(o, SDyadic):
+            E = max(self.exp, o.exp)
+            same = SInt.lift(self._scaled(E)) == SInt.lift(o._scaled(E))
+            if self.neg == o.neg:
+                return same
+            return band(tobit(same), self.mag._is_zero())  # +0.0 == -0.0
+        return NotImplemented
+
+    def __ne__(self, o):
+        r = self.__eq__(o)
+        return r if r is NotImplemented else (bnot(r) if isinstance(r, SBit) else (not r))
+
+    def __hash__(self):
+        raise OutOfReach("hash of symbolic float")
+
+    def __float__(self):
+        raise OutOfReach("a symbolic float used where a concrete one is needed")
+
+    def __int__(self):
+        raise OutOfReach("int() of a symbolic float outside a module of the code under verification")
+
+    def trunc(self):
+        """int(x): truncation towards zero"""
+        if self.num == 1 and self.exp == 0 and self.src is not None:
+            return self.src
+        m = self.mag * self.num
+        m = SInt.lift(m) if not isinstance(m, int) else m
+        q = m >> self.exp if self.exp > 0 else (m << -self.exp)
+        if isinstance(q, int):
+            return -q if self.neg else q
+        return SNeg(q) if self.neg else q
+
+    def __repr__(self):
+        return "SDyadic<%d bits * %d / 2^%d>" % (self.mag.width(), self.num, self.exp)
 
 
 def as_sint(x):
@@ -1007,17 +1148,51 @@ class SBits:
 def s_ba2int(a, signed=False):
     if isinstance(a, _real_bitarray):
         return _real_ba2int(a, signed=signed)
-    if signed:
-        raise OutOfReach("signed ba2int")
     if len(a) == 0:
         raise ValueError("non-empty bitarray expected")
     bits = a.b[::-1] if a.endian == "big" else list(a.b)
+    if signed:
+        # two's complement: decide the sign bit (forks when both signs are feasible); negative: -(2^n - u)
+        top = tobit(bits[-1])
+        if not bool(top):
+            return SInt(bits[:-1]).n() if len(bits) > 1 else 0
+        low = SInt([bnot(tobit(b)) for b in bits[:-1]]).n() if len(bits) > 1 else 0
+        r = low + 1
+        return SNeg(r, twos=list(bits)) if not isinstance(r, int) else -r
     return SInt(bits).n()
 
 
 def s_int2ba(v, length=None, endian="big", signed=False):
     if isinstance(v, (SBit, SLin)):
         v = SInt.lift(v)
+    if isinstance(v, SNeg):
+        if not signed:
+            if bool(v.mag._is_zero()):
+                return SBits(_real_int2ba(0, length=length, endian=endian))
+            raise OverflowError("unsigned integer not in range")
+        if length is None:
+            raise OutOfReach("int2ba without length")
+        if v.twos is not None and len(v.twos) == length:
+            bits = list(reversed(v.twos))
+            return SBits.of(bits if endian == "big" else bits[::-1], endian)
+        m = v.mag
+        # representable iff mag <= 2^(length-1)
+        too_big = bnot(ball([bnot(b) for b in m.bits[length - 1:]])) if m.width() >= length else 0
+        if m.width() >= length and bool(band(too_big, bnot(SInt.lift(m) == (1 << (length - 1))))):
+            raise OverflowError("signed integer not in range")
+        inv = SInt([bnot(m.bit(i)) for i in range(length)])
+        t = SInt.lift(inv + 1)
+        bits = [t.bit(length - 1 - i) for i in range(length)]
+        return SBits.of(bits if endian == "big" else bits[::-1], endian)
+    if isinstance(v, SInt) and signed:
+        if length is None:
+            raise OutOfReach("int2ba without length")
+        if v.width() > length - 1:
+            hi = bnot(ball([bnot(b) for b in v.bits[length - 1:]]))
+            if bool(hi):
+                raise OverflowError("signed integer not in range")
+        bits = [v.bit(length - 1 - i) for i in range(length)]
+        return SBits.of(bits if endian == "big" else bits[::-1], endian)
     if isinstance(v, SInt):
         if length is None:
             raise OutOfReach("int2ba without length")
